@@ -61,19 +61,23 @@ def respJson (probes : List Nat) : Except Err Resp → Json
       ("text", jarr [jstr (String.ofList r.text.1), jnat r.text.2]),
       ("g", jarr (probes.map fun k => match glookup r.globals k with | some v => jnat v | none => Json.null))])]
 
-def runKind (kind : String) (cfg : Cfg) (cap : Nat) (evs : List (Event Store)) : Option (List (Except Err Resp) × List (Except Err Resp)) :=
-  let go (L : Loader Store Handle) := some (run L cfg (Cache.empty cap) Store.emptyStore evs, refRun L cfg Store.emptyStore evs)
+def runKind (kind : String) (cfg : Cfg) (cap : Nat) (evs : List (Event Store)) :
+    Option (List (Except Err Resp) × List (Except Err Resp) × List Bool) :=
+  let go (L : Loader Store Handle) :=
+    some (run L cfg (Cache.empty cap) Store.emptyStore evs, refRun L cfg Store.emptyStore evs,
+          runShared L cfg (Cache.empty cap) Store.emptyStore evs)
   match kind with
   | "dict" => go dictLoader
   | "dict-stale" => go dictLoaderStale
   | "fs" => go fsLoader
   | "fs-old" => go fsLoaderOld
   | "choice" => go choiceLoader
+  | "fs2" => go fs2Loader
   | "ns" => go nsLoader
   | _ => none
 
 /-- `["cacheloader", kind, cap, auto_reload, ns_key, env_globals, probes, events]`
-→ `{"outs": [...caching loader...], "ref": [...non-caching loader...]}` -/
+→ `{"outs": [...caching loader...], "ref": [...non-caching loader...], "shared": [was the cached object itself returned?]}` -/
 def handle (args : List Json) : Json :=
   match args with
   | [.str kind, cap, ar, nk, eg, probes, evs] =>
@@ -81,12 +85,52 @@ def handle (args : List Json) : Json :=
           (asArr? evs).bind (parseEvents Store.emptyStore) with
     | some cap, some ar, some nk, some (some eg), some probes, some evs =>
       match runKind kind { autoReload := ar, nsKey := nk, eg := eg } cap evs with
-      | some (outs, ref) =>
-        Json.mkObj [("outs", jarr (outs.map (respJson probes))), ("ref", jarr (ref.map (respJson probes)))]
+      | some (outs, ref, shared) =>
+        Json.mkObj [("outs", jarr (outs.map (respJson probes))), ("ref", jarr (ref.map (respJson probes))),
+                    ("shared", jarr (shared.map Json.bool))]
       | none => jerr "bad-kind"
     | _, _, _, _, _, _ => jerr "bad-case"
   | _ => jerr "bad-args"
 
-def commands : List (String × (List Lean.Json → Lean.Json)) := [("cacheloader", handle)]
+/-- schedule entries: `["step", i]` or `["edit", idx, full, v|null]` (edits folded into store snapshots) -/
+def parseSchedule : Store → List Json → Option (List (CEvent Store))
+  | _, [] => some []
+  | s, j :: js =>
+    match asArr? j with
+    | some [.str "step", i] => do
+      let rest ← parseSchedule s js
+      pure (.step (← asNat? i) :: rest)
+    | some [.str "edit", idx, full, v] => do
+      let v' ← (match v with | .null => some none | x => (asNat? x).map some)
+      let s' := s.set (← asNat? idx) (← asStr? full).toList v'
+      let rest ← parseSchedule s' js
+      pure (.store s' :: rest)
+    | _ => none
+
+def threadJson (th : Thread Handle) : Json :=
+  match th.pc with
+  | .done (.ok t) => Json.mkObj [("ok", Json.mkObj [("name", jstr (String.ofList t.name)),
+      ("text", jarr [jstr (String.ofList t.text.1), jnat t.text.2])])]
+  | .done (.error e) => Json.mkObj [("err", jstr (errName e))]
+  | _ => jstr "pending"
+
+/-- `["cacheloader-threads", cap, auto_reload, [name…], schedule]` on the dict loader
+→ `{"threads": [...], "cache": [[key, [full, v]]… least recently used first]}` -/
+def handleThreads (args : List Json) : Json :=
+  match args with
+  | [cap, ar, names, sched] =>
+    match asNat? cap, asBool? ar, (asArr? names).bind (mapM? asStr?), (asArr? sched).bind (parseSchedule Store.emptyStore) with
+    | some cap, some ar, some names, some es =>
+      let cfg : Cfg := { autoReload := ar, nsKey := false, eg := [] }
+      let rs : List Req := names.map fun n => { name := n.toList, kw := none, ctx := none, mode := .sync, globals := none }
+      let fin := crun dictLoader cfg (cinit cap Store.emptyStore rs) es
+      Json.mkObj [("threads", jarr (fin.threads.map threadJson)),
+                  ("cache", jarr (fin.cache.items.map fun p =>
+                      jarr [jstr (String.ofList p.1), jarr [jstr (String.ofList p.2.text.1), jnat p.2.text.2]]))]
+    | _, _, _, _ => jerr "bad-case"
+  | _ => jerr "bad-args"
+
+def commands : List (String × (List Lean.Json → Lean.Json)) :=
+  [("cacheloader", handle), ("cacheloader-threads", handleThreads)]
 
 end Driver.C23
